@@ -599,7 +599,7 @@ class QasmProcessor:
             # processes gate tokens to create sets of registers to
             # which the gates are applied.
             new_regs = []
-            expand = 0
+            expand = None  # size of the whole registers in the statement
             for reg in regs:
                 if "[" in reg:
                     groups = re.match(r"(.*)\[(.*)\]", "".join(reg))
@@ -615,7 +615,7 @@ class QasmProcessor:
                     qubit = self.qubit_regs[qubit_name]
                     if (
                         reg_type != "barrier"
-                        and expand
+                        and expand is not None
                         and expand != len(qubit)
                     ):
                         raise ValueError(
@@ -624,7 +624,7 @@ class QasmProcessor:
                         )
                     expand = len(qubit)
                 new_regs.append(qubit)
-            if expand:
+            if expand is not None:
                 return zip(
                     *list(
                         map(
@@ -885,6 +885,9 @@ class QasmProcessor:
 
         args, regs = _gate_processor(command)
         reg_set = list(self._regs_processor(regs, "gate"))
+        # number of qubit arguments (an indexed qubit has four tokens);
+        # reg_set is empty when the statement is applied to empty registers
+        n_regs = len(regs) - 3 * regs.count("[")
 
         if args:
             gate_name = "{}({})".format(command[0], ",".join(args))
@@ -896,7 +899,7 @@ class QasmProcessor:
             _check_arity(
                 command[0],
                 len(args),
-                len(reg_set[0]),
+                n_regs,
                 (len(gate.gate_args), len(gate.gate_regs)),
             )
 
@@ -905,7 +908,7 @@ class QasmProcessor:
             command[0] not in self.predefined_gates
             and gate_name not in custom_gates
         ):
-            n = len(reg_set[0])
+            n = n_regs
             qc_temp = QubitCircuit(n)
             self._custom_gate(
                 qc_temp, [command[0], args, [str(i) for i in range(n)]]
@@ -917,6 +920,13 @@ class QasmProcessor:
 
         if command[0] in self.predefined_gates:
             args = [_eval_param(arg) for arg in args]
+            if command[0] in _GATE_SIGNATURES:
+                _check_arity(
+                    command[0],
+                    len(args),
+                    n_regs,
+                    _GATE_SIGNATURES[command[0]],
+                )
 
         # adds gate to the QubitCircuit
         for regs in reg_set:
